@@ -118,6 +118,8 @@ def finish(name, patch, demo, meta, ok):
         hist = old.get('history', [])
         hist.append(old['checks_run'])
         meta['history'] = hist[-5:]
+    if 'checks_run' in meta or 'first_caught_by' in old:
+        meta['first_caught_by'] = old.get('first_caught_by', meta.get('caught_by', []))
     if not meta.get('needs_to_manifest') and old.get('needs_to_manifest'):
         meta['needs_to_manifest'] = old['needs_to_manifest']
     with open(mp, 'w') as f:
